@@ -33,6 +33,17 @@ pub struct Cfg {
     pub max_commands: usize,
     /// Run the lookup/ancestry oracle (C11) on every n-th state check.
     pub lookup_every: u32,
+    /// Transient / hard fault rates of the simulated disk.
+    #[serde(default)]
+    pub fs: FsCfg,
+}
+
+#[derive(Serialize, Deserialize, Clone, Debug, PartialEq, Default)]
+pub struct FsCfg {
+    pub eintr_pct: u64,
+    pub short_pct: u64,
+    pub eio_permille: u64,
+    pub enospc_permille: u64,
 }
 
 #[derive(Serialize, Deserialize, Clone, Debug, PartialEq)]
@@ -198,6 +209,8 @@ pub struct Sim {
     /// Concurrent finalize commands exist somewhere: replicas legitimately cannot converge.
     pub pf_seen: bool,
     pub state_checks: u64,
+    pub fs: Option<Rc<crate::simfs::SimFs>>,
+    pub disk: Vec<crate::simfs::DiskShadow>,
 }
 
 pub fn key_alphabet() -> Vec<Key> {
@@ -229,6 +242,17 @@ impl Sim {
         log.borrow_mut().dump_every = cfg.dump_every;
         let probe_keys = key_alphabet();
         log.borrow_mut().probe_keys = probe_keys.clone();
+        let fs = if cfg.file_backed.iter().any(|f| *f) {
+            let fs = Rc::new(crate::simfs::SimFs::new(
+                cfg.seed,
+                crate::simfs::FsFaults { eintr_pct: cfg.fs.eintr_pct, short_pct: cfg.fs.short_pct, eio_permille: cfg.fs.eio_permille, enospc_permille: cfg.fs.enospc_permille },
+            ));
+            aranya_libc::verif::install(Some(Rc::clone(&fs) as Rc<dyn aranya_libc::verif::SimSys>));
+            Some(fs)
+        } else {
+            aranya_libc::verif::install(None);
+            None
+        };
         let mut reps = Vec::new();
         let mut spill_faults = Vec::new();
         for i in 0..cfg.n_reps {
@@ -268,6 +292,8 @@ impl Sim {
             nontrivial: BTreeSet::new(),
             pf_seen: false,
             state_checks: 0,
+            fs,
+            disk: vec![crate::simfs::DiskShadow::default(); n],
         }
     }
 
@@ -297,6 +323,12 @@ impl Sim {
     /// A panic inside the library: fuel exhaustion is a liveness violation of the property that
     /// owns the step; other panics are violations only where a property defines the outcome.
     pub fn on_panic(&mut self, owner: Option<&str>, what: &str, msg: String) {
+        if let Some(rest) = msg.strip_prefix(crate::simfs::CRASH_PANIC) {
+            // The simulated machine of a file-backed replica lost power inside a system call.
+            let r: usize = rest.trim().trim_start_matches('r').split(' ').next().and_then(|x| x.parse().ok()).unwrap_or(0);
+            self.crash_process(r, 0);
+            return;
+        }
         self.dead = true;
         if msg.contains("aranya_verif: fuel exhausted") {
             let p = owner.unwrap_or("C02");
